@@ -36,7 +36,12 @@ func TestMain(m *testing.M) {
 			"oracle: per input the printed output (order and multiplicity of print side effects), the echoed result, error/no error and the final globals are identical. Histories are built by a stateful generator: " +
 			"define / redefine named functions and lambdas from body templates (pure, reads a global, reads a constant, calls another function, prints, fails, calls the impure counter extension, recursion, closure factories " +
 			"capturing numbers, strings, upper-case names and function values), call them with arguments from a small pool so equal calls recur (ints, 0.0 / -0.0, 1 / 1.0, strings, small arrays and maps, 5 arguments), mutate " +
-			"globals, delete and re-create names; plus typed-grammar programs. Non-trivial: the cached run had at least one cache hit AFTER a state change (hit counter of the hook); distinct by history text.",
+			"globals, delete and re-create names; plus typed-grammar programs. Non-trivial: the cached run had at least one cache hit AFTER a state change (hit counter of the hook); distinct by history text. " +
+			"Nested results: functions returning a generated TREE of containers (arrays and maps with int or string keys, built by literals or loops, sizes on both sides of the small/large thresholds and sizes given by the argument, small wrapping large and the reverse) " +
+			"are called repeatedly with equal arguments while the caller takes an inner container out of the received value into a variable and updates it in place (index / dot assignment, del, through a helper function), all top-level names declared beforehand; " +
+			"non-trivial: a cache hit after the last such update. " +
+			"Image wrappers: functions wrapping the DontCache extensions that keep their state outside the interpreter (image.new, image.set, image.set_ycbcr, image.set_hsl, image.png; also nested, conditional, printing) are called repeatedly with equal arguments " +
+			"while the named images are changed in between (directly, by the path functions, or by other wrappers), the PNG bytes are compared; non-trivial: an equal wrapper call made after the images changed.",
 		Assumptions: []string{
 			"rand() and time.now() are replaced by vcounter(), an extension registered by the harness with DontCache: what is checked is that such calls are never frozen, not their values",
 			"info and type output is not compared (not generated)",
